@@ -16,6 +16,7 @@ pub mod c10;
 pub mod c11;
 pub mod c12;
 pub mod c13;
+pub mod c15;
 pub mod c16;
 
 pub fn run(id: &str, tier: Tier, seed: u64) -> Option<i32> {
@@ -33,6 +34,7 @@ pub fn run(id: &str, tier: Tier, seed: u64) -> Option<i32> {
         "C11" => c11::run(tier, seed),
         "C12" => c12::run(tier, seed),
         "C13" => c13::run(tier, seed),
+        "C15" => c15::run(tier, seed),
         "C16" => c16::run(tier, seed),
         _ => return None,
     })
